@@ -9,7 +9,7 @@ import json
 import vlib, m2, m3
 from batch import Batch, J
 
-PROOF_TARGETS = ["TypifyModel.Proofs.C02"]
+PROOF_TARGETS = ["TypifyModel.Proofs.C02", "TypifyModel.Proofs.FlattenFindings"]
 PROOF_FILES = ["Proofs/C02.lean", "Proofs/Lemmas/ConvLemmas.lean", "Proofs/Lemmas/ConvAccepts.lean",
                "Proofs/Lemmas/ConvAccepts2.lean", "Proofs/Lemmas/ConvAccepts3.lean"]
 
